@@ -48,7 +48,7 @@ def emit (old new : St) : String :=
   let k := match old.err, new.err with
     | none, some (_, k) => hexOf k.msg
     | _, _ => "-"
-  s!"R {stateIdx new.state} {k} {new.stack.length} {optNat new.iterI} {optNat new.iterE} {new.writes.length}"
+  s!"R {stateIdx new.state} {k} {new.stack.length} {optNat new.iterI} {optNat new.iterE} {new.writes.length} {new.unknowns}"
 
 def feed (d : DSt) (line : Nat) (e : Event) : DSt × String :=
   let st' := step d.st e
